@@ -26,6 +26,41 @@ CLAIMED = {
         note=TRUST,
         technique="VC generation by symbolic execution + exact polynomial identity (normaliser) + z3",
         ref="5-C20"),
+    "C05": dict(
+        text="Contract-based deductive proof: each differential closure is run on a field defined as a degree-2 polynomial "
+             "with SYMBOLIC coefficients sampled at the simulator's cell centres; its value at a symbolic interior cell equals "
+             "the continuous operator of the polynomial times the documented prefactor (exact polynomial identities, normaliser). "
+             "ENO3: per upwind branch pair, nodal products replaced by G(x_k): exact for cubics (same direction) / quadratics.",
+        note=TRUST + " Filter Laplacians are observed through the public order-1 filter closures.",
+        technique="symbolic execution of the real closures on polynomial-defined fields + exact polynomial identity",
+        ref="5-C05"),
+    "C12": dict(
+        text="Contract-based deductive proof: the real curl/divergence/update closures are COMPOSED symbolically on symbolic "
+             "fields of symbolic extent; div(curl)=0, curl-type updates leave div unchanged, 2-D stream-function velocity "
+             "divergence-free with wide-Laplacian curl, forcing update = omega + library curl, penalised update = forcing update "
+             "of the difference: exact identities at a symbolic cell whose stencils avoid the ring.",
+        note=TRUST,
+        technique="symbolic composition of the real closures + exact polynomial identity (normaliser)",
+        ref="5-C12"),
+    "C16": dict(
+        text="Contract-based deductive proof of the real compute_advection_diffusion_stable_timestep for all velocity fields, "
+             "dx, cfl, nu > 0, prefactor in (0,1] (positivity, linearity, both limits; np.amax by contract), and of the maximum "
+             "principle of the real Euler-forward diffusion closures (convex weights, no new extrema, ring unchanged).",
+        note=TRUST + " Assumed: np.amax contract, finfo eps in (0, 2^-23], nu > 0. The simulators' methods forwarding to the "
+             "function are covered by the C01 units.",
+        technique="symbolic execution of the real function with np rebound to svx.symnp + z3 (QF_NRA)",
+        ref="5-C16"),
+    "C19": dict(
+        text="Contract-based deductive proof: Brinkmann closures (convex combination, identity at chi=0, contraction identity), "
+             "characteristic function (range, plateaus incl. +-w, monotone, H(phi)+H(-phi)=1; sin axiomatised), boundary damping "
+             "(all position classes, widths 1-4, symbolic extents), Laplacian filters (stencil extracted from the real closure "
+             "by linearity; Fourier symbol = documented transfer function; constants kept, checkerboard annihilated; work-buffer "
+             "independence from the closed forms).",
+        note=TRUST + " Trusted lemmas: M3 (Fourier symbol of an even stencil via Chebyshev polynomials), M6 (sin range/sign/"
+             "Lipschitz facts, instantiated per atom). Lagrangian Brinkmann variant: see C19 evidence (covered by the coupling units "
+             "when built).",
+        technique="symbolic execution + normaliser + z3 with per-atom trigonometric axioms",
+        ref="5-C19"),
 }
 
 NOT_YET = "check not built yet (work in progress; see DESIGN.md section 5 for the plan)"
